@@ -13,6 +13,11 @@ package dart
 //@   props C09
 //@   requires st != nil && (forall i int :: 0 <= i && i < len(st.Fields) ==> st.Fields[i].Field != nil)
 //@   modifies *
+//@   -- the keys read from and written to the JSON map are the keys encoding/json uses, unchanged
+//@   callverb fmt.Sprintf "json['%*']" field.JSONName()
+//@   callverb fmt.Sprintf "FromJson(json['%*'])" field.JSONName()
+//@   callverb fmt.Sprintf "%* : item.%s" field.JSONName()
+//@   callverb fmt.Sprintf "%* : %sToJson(item.%s)" field.JSONName()
 //@   loop st.Fields.1 endassert !field.Exported() ==> fieldsFrom == athead(fieldsFrom) && fieldsTo == athead(fieldsTo)
 
 //@ func buffer.codeForStruct
